@@ -90,8 +90,35 @@ fn split_ops(ops: &[Op]) -> (Vec<ATerm>, Vec<(usize, usize)>) {
 
 // ------------------------------------------------------------------ C12
 
+/// a history with more slot names than the oracle can afford, for the order comparison alone (the model line is a bare query):
+/// a ternary node over three three-slot leaves whose class gets all of S3 by two unions — 6·6·6 group-compatible variants
+fn gen_wide(rng: &mut Rng) -> Vec<Op> {
+    let t3 = |a: ATerm, b: ATerm, c: ATerm| ATerm { v: 17, fields: vec![CField::App, CField::App, CField::App], children: vec![a, b, c] };
+    let c = |s: &[u32]| leaf(8, s);
+    let s: [u32; 9] = [4, 8, 12, 16, 20, 24, 28, 32, 36];
+    let parent = |s: &[u32; 9]| t3(c(&s[0..3]), c(&s[3..6]), c(&s[6..9]));
+    let mut ops = vec![Op::Add(parent(&s)), Op::Add(c(&[4, 8, 12])), Op::Add(c(&[8, 4, 12]))];
+    ops.push(Op::Add(if rng.chance(1, 2) { c(&[4, 12, 8]) } else { c(&[8, 12, 4]) }));
+    // the same parent with one or two children rotated / flipped
+    for _ in 0..rng.range(1, 2) {
+        let mut s2 = s;
+        let k = 3 * rng.below(3);
+        if rng.chance(1, 2) {
+            s2.swap(k, k + 1);
+            s2.swap(k + 1, k + 2);
+        } else {
+            s2.swap(k + 1, k + 2);
+        }
+        ops.push(Op::Add(parent(&s2)));
+    }
+    ops.push(Op::Union(1, 2));
+    ops.push(Op::Union(1, 3));
+    ops
+}
+
 fn order_case(rng: &mut Rng, nvariants: usize) -> Case {
-    let (ops, stream) = gen_history(rng);
+    let wide = rng.chance(1, 8);
+    let (ops, stream) = if wide { (gen_wide(rng), "wide") } else { gen_history(rng) };
     let (terms, unions) = split_ops(&ops);
     let n = terms.len();
     // variants: (ops, orig_index)
@@ -140,7 +167,7 @@ fn order_case(rng: &mut Rng, nvariants: usize) -> Case {
     }
     let mut base_q = base.clone();
     base_q.push(Op::Query);
-    let line = format!("eg main;{}", enc_ops(&base_q));
+    let line = if wide { "eg main;Q".to_string() } else { format!("eg main;{}", enc_ops(&base_q)) };
     let nunions = unions.len();
     let touching = unions.len() >= 3
         && unions.iter().enumerate().any(|(a, u)| unions.iter().skip(a + 1).any(|w| u.0 == w.0 || u.0 == w.1 || u.1 == w.0 || u.1 == w.1));
